@@ -60,7 +60,7 @@ func scenarioAffinity() int {
 	}
 	nsched := *flagCases
 	if nsched == 0 {
-		nsched = ev.Pick(150, 4000)
+		nsched = ev.Pick(150, 1200)
 	}
 	respOK, seq := 0, 0
 	for s := 0; s < nsched && run.Violations() <= 6; s++ {
@@ -87,6 +87,8 @@ func scenarioAffinity() int {
 		}
 		sameSentBy := g.R.Intn(2) == 0
 		sentBys := []string{ua.IP + ":5060", ua.Name + ":5060", ua.IP + ":5099", ua.Name, ua.IP, ua.Name + ":5099"}
+		// ... and the true socket address of one of the open connections, announced by others too
+		sentBys = append(sentBys, conns[g.R.Intn(len(conns))].Local, conns[g.R.Intn(len(conns))].Local)
 		common := sentBys[g.R.Intn(len(sentBys))]
 		var txns []*afTxn
 		for c := range conns {
